@@ -158,7 +158,11 @@ def explore_parallel(name, factory, params, signature=None, max_paths=None, chun
             return True
         while queue or pending:
             while queue and len(pending) < nproc * 2 and budget_left():
-                pending.add(pool.submit(_work, queue.pop()))
+                item = queue.pop()
+                if len(queue) + len(pending) < nproc * 2 and chunk > 16:
+                    # not enough work items yet to keep the pool busy: split early
+                    item = item[:3] + (16,) + item[4:]
+                pending.add(pool.submit(_work, item))
             if not pending:
                 break
             done, pending = cf.wait(pending, return_when=cf.FIRST_COMPLETED)
